@@ -297,13 +297,15 @@ func runExhaustive(c *mon.Case) {
 
 func randScheme(r *gen.Rand, kind string) scheme {
 	if r.Chance(0.45) {
-		ext := -r.PickF([]float64{0.25, 0.5, 0.5, 1, 2})
-		open := ext - r.PickF([]float64{0, 0.5, 1, 3, 9.5, 10})
+		// dyadic values: every score is exact in floating point; some finer than 1/100 (a score "tidied" to two
+		// decimals is then another number)
+		ext := -r.PickF([]float64{0.25, 0.5, 0.5, 1, 2, 0.125, 0.0625})
+		open := ext - r.PickF([]float64{0, 0.5, 1, 3, 9.5, 10, 1.125})
 		return scheme{Matrix: kind, Open: open, Extend: ext}
 	}
-	ext := -r.PickF([]float64{0.25, 0.5, 1, 1.5, 2})
-	open := ext - r.PickF([]float64{0, 0, 0.5, 1, 2.5, 8})
-	return scheme{Match: r.PickF([]float64{0.5, 1, 1, 2, 3, 5, 8}), Mismatch: -r.PickF([]float64{0.25, 0.5, 1, 1, 2, 4}), Open: open, Extend: ext}
+	ext := -r.PickF([]float64{0.25, 0.5, 1, 1.5, 2, 0.125, 0.0625})
+	open := ext - r.PickF([]float64{0, 0, 0.5, 1, 2.5, 8, 1.125})
+	return scheme{Match: r.PickF([]float64{0.5, 1, 1, 2, 3, 5, 8, 0.375, 1.001953125}), Mismatch: -r.PickF([]float64{0.25, 0.5, 1, 1, 2, 4, 0.4375}), Open: open, Extend: ext}
 }
 
 const ntLetters = "ACGT"
